@@ -188,6 +188,7 @@ class Table(Vector):
 	""" Multiple columns of the same length """
 	_length = None
 	_repr_rows = None  # Optional table-specific repr row count override
+	_FP_COLUMN_B = 2654435761  # base for combining column fingerprints (differs from the element base)
 	
 	def __new__(cls, initial=(), dtype=None, name=None, as_row=False):
 		return super(Vector, cls).__new__(cls)
@@ -241,8 +242,18 @@ class Table(Vector):
 		Columns are written and replaced without the table being told, so the
 		table never memoises its own value; each column memoises (and
 		invalidates) its own, which keeps this O(number of columns).
+		
+		Column fingerprints are combined with a base of their own: with the
+		element base, cell (column j, row i) and cell (column j+1, row i-1)
+		would carry the same weight and two opposite changes made by one region
+		assignment would cancel.
 		"""
-		return self._compute_fingerprint_full()
+		P = self._FP_P
+		B = self._FP_COLUMN_B
+		total = 0
+		for col in self._underlying:
+			total = (total * B + self._hash_element(col)) % P
+		return total
 
 	def __len__(self):
 		if len(self._underlying) == 0:
